@@ -154,6 +154,9 @@ class SignedBytes(Obligation):
             if r==z3.sat:
                 rec['viol']={'kind':'signer_and_verifier_bytes_differ','known_key':None,'scenario':self.scn(run,g,m,mv),'predicted':'mismatch','what':'Metablock::new / MetablockBuilder::sign / Metablock::verify do not derive the same signed bytes for the same metadata'}; return rec
             wit('sign_and_verify_bytes_equal'); wit('verified_bytes_read_back')
+            if is_sample(run,self.seed,self.rate):
+                r,m=run.check_sat(z3.BoolVal(True))
+                if r==z3.sat: rec['sample']={'scenario':self.scn(run,g,m,mv),'expect':'match'}
             return rec
         if self.prop=='C05':
             rec['obl']+=1
@@ -164,10 +167,10 @@ class SignedBytes(Obligation):
             res,node=jp.parse(run,undo)
             if res!='ok':
                 r,m=run.check_sat(z3.BoolVal(True))
-                rec['viol']={'kind':'signed_bytes_not_decodable','known_key':None,'scenario':self.scn(run,g,m,mv),'predicted':'bytes','what':'signed bytes cannot be read back (after undoing the newline substitution): '+str(node)}; return rec
+                rec['viol']={'kind':'signed_bytes_not_decodable','known_key':None,'scenario':self.scn(run,g,m,mv),'predicted':'match','what':'signed bytes cannot be read back (after undoing the newline substitution): '+str(node)}; return rec
             r,m=run.check_sat(z3.Not(jp.same(g['tree'],node)))
             if r==z3.sat:
-                rec['viol']={'kind':'field_not_recoverable_from_signed_bytes','known_key':None,'scenario':self.scn(run,g,m,mv),'predicted':'bytes','what':'the signed bytes do not determine every observable field (decode(signed_bytes(x)) != x)'}; return rec
+                rec['viol']={'kind':'field_not_recoverable_from_signed_bytes','known_key':None,'scenario':self.scn(run,g,m,mv),'predicted':'match','what':'the signed bytes do not determine every observable field (decode(signed_bytes(x)) != x)'}; return rec
             wit('verified_bytes_read_back'); wit('sign_and_verify_bytes_equal')
         if self.prop=='C11':
             rec['obl']+=1
